@@ -200,5 +200,100 @@ Definition spec_parse (l : list Z) : list Z :=
 
 (* C06: whenever the text is accepted, the three fixpoint flags hold *)
 Definition spec_fixpoint (l : list Z) : list Z := [IFACCEPTED; 0; 1; 1; 1; -9; -9; -9; 1; REST].
+(* C17 (objects built through Parse): whenever the text is accepted, the output is valid JSON,
+   the four spellings agree and AppendJSON appends (flag 3) *)
+Definition spec_wellformed (l : list Z) : list Z := [IFACCEPTED; 0; -9; -9; 1; -9; -9; -9; -9; REST].
 (* C08: whenever the text is accepted, the three option flags hold *)
 Definition spec_options (l : list Z) : list Z := [IFACCEPTED; 0; -9; -9; -9; 1; 1; 1; -9; REST].
+
+(* ---- constructor-built objects (C17), tag 72: args = s ctree ----
+   0 x y hasz z | 1 x y | 2 a b c d | 3 n coords | 4 nr (n coords)* | 5 mk [ws doc | n bytes] obj
+   | 6 k n obj* | 7 cx cy meters steps *)
+Definition dec_f (k : Z) : fnum := if NULLMARK <=? k then FNull else FV k.
+
+Fixpoint take_fpts (n : nat) (l : list Z) : list fpt * list Z :=
+  match n, l with
+  | S k, x :: y :: r => let '(ps, rest) := take_fpts k r in ((dec_f x, dec_f y) :: ps, rest)
+  | _, _ => ([], l)
+  end.
+
+Fixpoint take_frings (n : nat) (l : list Z) : list (list fpt) * list Z :=
+  match n, l with
+  | S k, c :: r =>
+      let '(ps, rest) := take_fpts (Z.to_nat c) r in
+      let '(rs, rest') := take_frings k rest in (ps :: rs, rest')
+  | _, _ => ([], l)
+  end.
+
+Definition NEWFEATURE_EMPTY_OK : bool := true.   (* after the repair of F9 (false = pinned tree) *)
+
+(* NewFeature (feature.go:21-35) on a members text that is a JSON object *)
+Definition new_feature_extra (ms : list (jkey * jv)) : option extra :=
+  match ms with
+  | [] => if NEWFEATURE_EMPTY_OK then None else Some {| dims := 0; values := []; members := Some [] |}
+  | _ => Some {| dims := 0; values := []; members := Some ms |}
+  end.
+
+Fixpoint take_ctor (fuel : nat) (l : list Z) : option (gobj * list Z) :=
+  match fuel with
+  | O => None
+  | S f =>
+      match l with
+      | 0 :: x :: y :: hz :: z :: r =>
+          Some (JPoint (dec_f x, dec_f y)
+                       (if hz =? 1 then Some {| dims := 1; values := [dec_f z]; members := None |} else None), r)
+      | 1 :: x :: y :: r => Some (JSimple (dec_f x, dec_f y), r)
+      | 2 :: a :: b :: c :: d :: r => Some (JRect (dec_f a, dec_f b) (dec_f c, dec_f d), r)
+      | 3 :: n :: r => let '(ps, rest) := take_fpts (Z.to_nat n) r in Some (JLine ps None, rest)
+      | 4 :: nr :: r => let '(rs, rest) := take_frings (Z.to_nat nr) r in Some (JPoly rs None, rest)
+      | 5 :: mk :: r =>
+          let after : option (option extra * list Z) :=
+            if mk =? 0 then Some (None, r)
+            else if mk =? 1 then
+              match r with
+              | _ :: r1 =>
+                  match take_jv (length r1) r1 with
+                  | Some (JObj ms, rest) =>
+                      (* a text that is exactly "{}" is skipped before the JSON test (feature.go:25) *)
+                      Some (new_feature_extra ms, rest)
+                  | _ => None
+                  end
+              | [] => None
+              end
+            else
+              match r with
+              | n :: r1 => let '(_, rest) := take_n (Z.to_nat n) r1 in Some (None, rest)   (* not a JSON object: ignored *)
+              | [] => None
+              end in
+          match after with
+          | Some (ex, rest) =>
+              match take_ctor f rest with Some (b, rest') => Some (JFeature b ex, rest') | None => None end
+          | None => None
+          end
+      | 6 :: k :: n :: r =>
+          let fix kids (m : nat) (l : list Z) : option (list gobj * list Z) :=
+            match m with
+            | O => Some ([], l)
+            | S m' =>
+                match take_ctor f l with
+                | Some (c, rest) => match kids m' rest with Some (cs, rest') => Some (c :: cs, rest') | None => None end
+                | None => None
+                end
+            end in
+          match kids (Z.to_nat n) r with Some (cs, rest) => Some (JColl k cs None, rest) | None => None end
+      | 7 :: x :: y :: m :: _ :: r => Some (JCircle (dec_f x, dec_f y) (dec_f m), r)
+      | _ => None
+      end
+  end.
+
+Definition run_ctor (l : list Z) : list Z :=
+  match l with
+  | s :: r =>
+      match take_ctor (length r) r with
+      | Some (o, []) => [1; 1; 1; 1; 1; 1; -7] ++ emit (fmt_dyadic s) o
+      | _ => [-1]
+      end
+  | _ => [-1]
+  end.
+
+Definition spec_ctor (l : list Z) : list Z := [1; 1; 1; 1; 1; 1; -7; REST].
